@@ -278,7 +278,36 @@ func (f *frame) loopContract(li *loopInfo) *LoopC {
 			lc.Invs = append(lc.Invs, &Clause{Kind: "invariant", Text: noSwallowInvText, Expr: e, Tags: f.contract.NoSwallowTags})
 		}
 	}
+	if f.top && f.lockBal && f.loopTouchesLocks(li) {
+		if lc == nil {
+			lc = &LoopC{Ord: li.ord}
+			f.contract.Loops[li.ord] = lc
+		}
+		has := false
+		for _, inv := range lc.Invs {
+			if inv.Text == lockBalInvText {
+				has = true
+			}
+		}
+		if !has {
+			e, _ := ParseCExpr(lockDepthGhost + " == 0")
+			lc.Invs = append(lc.Invs, &Clause{Kind: "invariant", Text: lockBalInvText, Expr: e, Tags: f.contract.LockBalancedTags})
+		}
+	}
 	return lc
+}
+
+func (f *frame) loopTouchesLocks(li *loopInfo) bool {
+	for b := range li.body {
+		for _, in := range b.Instrs {
+			if ci, ok := in.(ssa.CallInstruction); ok {
+				if lockDelta(calleeName(ci.Common())) != 0 {
+					return true
+				}
+			}
+		}
+	}
+	return false
 }
 
 const noSwallowInvText = "noswallow: no iteration continues after a call returned an error"
@@ -758,6 +787,9 @@ func (f *frame) loopGhostMods(li *loopInfo) map[string]bool {
 	}
 	if f.eng().noSwallowActive(f.contract) {
 		out[noSwallowGhost] = true
+	}
+	if f.lockBal && f.loopTouchesLocks(li) {
+		out[lockDepthGhost] = true
 	}
 	for b := range li.body {
 		for _, in := range b.Instrs {
